@@ -285,10 +285,77 @@ func checkSemanticValidation(c *Ctx, p *packages.Package) {
 		c.Lost("R9.2", "mappers type in "+pk)
 		return
 	}
+	// when the expected shape is not found: a function that compares two computed values at all has some validation whose form
+	// this rule does not follow (undecided); one that compares nothing validates nothing (violation)
+	comparesSomething := func(fd *ast.FuncDecl) bool {
+		found := false
+		deepInspect(p, fd, 2, func(n ast.Node) bool {
+			if b, ok := n.(*ast.BinaryExpr); ok {
+				switch b.Op {
+				case token.LSS, token.GTR, token.LEQ, token.GEQ:
+					_, kx := constInt(info, b.X)
+					_, ky := constInt(info, b.Y)
+					if !kx && !ky {
+						found = true
+					}
+				}
+			}
+			return true
+		})
+		return found
+	}
+	// a comparison of the two bounds in which one side carries an arithmetic offset (low > up+1): the bounds are compared, but
+	// not with each other's values
+	offsetCompare := func(fd *ast.FuncDecl) string {
+		out := ""
+		strip := func(e ast.Expr) (ast.Expr, bool) {
+			if b, ok := ast.Unparen(e).(*ast.BinaryExpr); ok && (b.Op == token.ADD || b.Op == token.SUB) {
+				if _, isK := constInt(info, b.Y); isK {
+					return b.X, true
+				}
+				if _, isK := constInt(info, b.X); isK && b.Op == token.ADD {
+					return b.Y, true
+				}
+			}
+			return e, false
+		}
+		ast.Inspect(fd.Body, func(n ast.Node) bool {
+			b, ok := n.(*ast.BinaryExpr)
+			if !ok {
+				return true
+			}
+			switch b.Op {
+			case token.LSS, token.GTR, token.LEQ, token.GEQ:
+			default:
+				return true
+			}
+			x, ox := strip(b.X)
+			y, oy := strip(b.Y)
+			if (ox || oy) && getIndex(x) >= 0 && getIndex(y) >= 0 && getIndex(x) != getIndex(y) {
+				out = types.ExprString(b)
+			}
+			return true
+		})
+		return out
+	}
+	decide := func(fd *ast.FuncDecl, key string, ok bool, detail, witness string) {
+		if off := offsetCompare(fd); off != "" && !ok {
+			c.Fail("R9.2", key, fd.Pos(), "the bounds are compared with an offset (`"+off+"`), not with each other: a range that is off by that much passes", witness)
+			return
+		}
+		switch {
+		case ok:
+			c.Pass("R9.2", key, fd.Pos(), "")
+		case comparesSomething(fd):
+			c.Undecided("R9.2", key, fd.Pos(), "the function compares its bounds, but not in a form this rule follows")
+		default:
+			c.Fail("R9.2", key, fd.Pos(), detail, witness)
+		}
+	}
 	if fd := FuncDecl(p, mappers.Obj().Name(), "ToCharRange"); fd != nil {
 		curFd = fd
 		c.Analysed(funcKey(p, fd))
-		c.Check("R9.2", pk+": a descending character range is recorded as an error", fd.Pos(), records(fd, descending), "no `if low > up { m.errors = errors.Join(...) }`", "[z-a]")
+		decide(fd, pk+": a descending character range is recorded as an error", records(fd, descending), "no `if low > up { m.errors = errors.Join(...) }`", "[z-a]")
 	} else {
 		c.Lost("R9.2", pk+".ToCharRange")
 	}
@@ -319,7 +386,7 @@ func checkSemanticValidation(c *Ctx, p *packages.Package) {
 			})
 			return enclosed
 		}
-		c.Check("R9.2", pk+": a repetition range whose minimum exceeds a present maximum is recorded as an error", fd.Pos(), records(fd, withNil), "no `if up != nil && low > *up { m.errors = errors.Join(...) }`", "a{3,1}")
+		decide(fd, pk+": a repetition range whose minimum exceeds a present maximum is recorded as an error", records(fd, withNil), "no `if up != nil && low > *up { m.errors = errors.Join(...) }`", "a{3,1}")
 	} else {
 		c.Lost("R9.2", pk+".ToRange")
 	}
@@ -381,6 +448,10 @@ func checkSemanticValidation(c *Ctx, p *packages.Package) {
 			}
 			return true
 		})
+		if nGuards == 0 {
+			c.Undecided("R9.2", pk+"."+name+": a parsed bound is installed whenever it is present (the guard is a presence test, not a test on the value)", fd.Pos(), "no if statement that installs a bound into a local variable: the bound is carried in another way")
+			continue
+		}
 		c.Check("R9.2", pk+"."+name+": a parsed bound is installed whenever it is present (the guard is a presence test, not a test on the value)", fd.Pos(), nGuards >= 1 && bad == "",
 			fmt.Sprintf("the bound is installed under `%s`: for the values the extra test excludes, the comparison of minimum and maximum never sees the written bound", bad), "a{1,0}")
 	}
@@ -472,6 +543,13 @@ func mapperSkeleton(p *packages.Package, fd *ast.FuncDecl) []string {
 		case *ast.TypeAssertExpr:
 			if s.Type != nil {
 				set["assert:"+abstractType(info.TypeOf(s.Type))] = true
+			}
+		case *ast.CaseClause:
+			// a case of a type switch asserts the type just as x.(T) does
+			for _, e := range s.List {
+				if tv, ok := info.Types[e]; ok && tv.IsType() {
+					set["assert:"+abstractType(tv.Type)] = true
+				}
 			}
 		case *ast.ReturnStmt:
 			if len(s.Results) == 2 {
